@@ -373,6 +373,20 @@ func (g *mgen) stmt(f *mfile, sc *scope, allowExport bool) {
 		shapes := []string{"", "undefined", "void 0", "", "null", "7", sc.any(r), "...[]", "...[undefined]", "...[5]", "\"\"", "0"}
 		nb := r.Range(1, 3)
 		wrap := r.Intn(20) // 0-4 try, 5-7 class static block, else bare top-level declaration
+		if r.Chance(65) {
+			// elements whose static type is unknown but whose run-time value is
+			// undefined: the default value DOES run. Declared beforehand (own
+			// removable parts): a never-assigned var, a let holding undefined.
+			u1, u2, cnd := g.name(f, "u"), g.name(f, "u"), g.name(f, "u")
+			add("var " + u1 + ";")
+			add("let " + u2 + " = " + r.Pick([]string{"undefined", "void 0"}) + ";")
+			add("var " + cnd + ";")
+			und := []string{u1, u2, cnd + " ? 1 : undefined", u1 + " || undefined", "(0, " + u2 + ")", "null ?? " + u1, "!0 && " + u2,
+				"void 0 || undefined", "false || " + u1, u2 + " ?? " + u1, "typeof " + cnd + " === \"undefined\" ? " + u1 + " : 1",
+				cnd + " === 1 ? 1 : void 0", u1 + " && 1", "[" + u1 + "][0], " + u2}
+			shapes = append(und[:len(und)-1], und[:len(und)-1]...)
+			shapes = append(shapes, "undefined", "7", "")
+		}
 		var pats, lits []string
 		for i := 0; i < nb; i++ {
 			n := g.name(f, "h")
@@ -396,6 +410,9 @@ func (g *mgen) stmt(f *mfile, sc *scope, allowExport bool) {
 		case wrap < 8:
 			add("class " + g.name(f, "k") + " { static { try { " + decl + " } catch (e) { $p(" + g.id(f) + ", e && e.name); } } }")
 		default:
+			if allowExport && r.Chance(40) {
+				decl = "export " + decl // unused (or used) exports of an imported module
+			}
 			add(decl)
 		}
 		g.note("wrap:destructure-shapes")
